@@ -754,6 +754,12 @@ def R3(ctx, rule="R3", parts=("structures", "counts", "graph-field")):
     gsrc = fl.sources_operand(b, aug[1]["args"][0])
     for bb, t, name in later:
         part = "structures" if name in ("raw_edges", "raw_nodes") else "counts"
+        p_ = callee_path(t) or ""
+        if p_ in ctx.fb.bodies and "EdgeCounts" not in t["dest"]["ty"]:
+            # a crate-local helper reading the graph: classify by what it reads
+            reads_raw = any((callee_path(t2) or "") in ("daggy::Dag::<N, E, Ix>::raw_edges", "daggy::Dag::<N, E, Ix>::raw_nodes")
+                            for bx in m.reach_bodies(p_) for _, t2 in bx.calls())
+            part = "structures" if reads_raw else "counts"
         if part not in parts:
             continue
         same = fl.sources_operand(b, t["args"][0]) == gsrc
@@ -1451,7 +1457,7 @@ POLY_GRAPH_CALLS = (
     "::node_count", "::edge_count", "::children", "::parents", "::iter", "::walk_next", "::node_references", "::node_indices",
     "::raw_edges", "::raw_nodes", "::add_node", "::add_edge", "::update_edge", "::graph", "::index", "::new", "::source", "::target",
     "algo::has_path_connecting", "::node_weight", "::node_weights_mut", "::edge_weight", "::next", "::find_edge", "::toposort",
-    "::node_identifiers", "::neighbors", "::neighbors_directed", "::edges", "::edges_directed", "::edge_references", "::from_elem",
+    "::node_identifiers", "::externals", "::neighbors", "::neighbors_directed", "::edges", "::edges_directed", "::edge_references", "::from_elem",
 )
 
 
@@ -1671,6 +1677,15 @@ def C13_rules(ctx, rule="K"):
             names = [c[0] for c in chain]
             srcn = [n for n in names if n in ALL_NODE_SOURCES]
             filt = [(p, cb, e) for p, cb, e in chain if p in ("std::iter::Iterator::filter_map", "std::iter::Iterator::filter")]
+            ext = [(p, cb, e) for p, cb, e in chain if p.endswith("::externals")]
+            if ext and not filt and not [n for n in names if n in SELECTIVE_ITER]:
+                # petgraph's externals(Incoming): exactly the nodes without incoming edges
+                d = strip_refs(ext[0][2][2][1]) if len(ext[0][2][2]) > 1 else None
+                dn = None
+                if d is not None and d.kind == "agg":
+                    dn = d[3]
+                seeds_ok = dn == "Incoming"
+                why = "work queue is graph.externals(%s)" % dn
             if srcn and len(filt) == 1:
                 fcl = closure_of_arg(ctx, filt[0][1], filt[0][2][2][1])
                 if fcl is not None:
@@ -1834,6 +1849,172 @@ def candidate_ok(ctx, body, cand, rank_allocs):
 # ---------------------------------------------------------------------------
 # C16: builder edge methods
 
+def per_element_insertion(ctx, M, ins):
+    """The insertion runs once per element of the edge array, in array order,
+    with (from, to) = the element's two ids, and stops at the first error."""
+    m, fl, fb = ctx.model, ctx.model.flow, ctx.fb
+    L = ins["ends_frame"]
+    a, c = ins["a"], ins["c"]
+    # the call performed per element in L: the mutator itself or the link towards it
+    site_bb = None
+    if ins["site"][0].id == L.id:
+        site_bb = ins["site"][1]
+    else:
+        for (cb, cbb, ct) in ins.get("links", []):
+            if cb.id == L.id:
+                site_bb = cbb
+    if site_bb is None:
+        return False, "cannot locate the per-element insertion in %s" % short(L.id)
+    if L.kind == "closure":
+        ok_ft = a.kind == "field" and c.kind == "field" and a[1] == c[1] and (a[2], c[2]) == (0, 1) and \
+            any(x.kind == "arg" for x in walk_expr(a))
+        uses = fl.closure_uses(L)
+        if len(uses) != 1:
+            return False, "per-element closure is not passed to one consumer"
+        pb, ubb, ut, ai = uses[0]
+        cons = callee_path(ut)
+        if cons not in ("std::iter::Iterator::try_for_each", "std::iter::Iterator::try_fold"):
+            return False, "does not use a short-circuiting try_for_each over the edges (%s)" % cons
+        chain = iterator_chain(ctx, pb, expr_operand(pb, ut["args"][0]))
+        if cond_guards(L, site_bb) or L.back_edges():
+            return False, "the insertion is conditional / repeated inside the per-element closure"
+    else:
+        lr = loop_region(ctx, L, site_bb)
+        if lr is None:
+            return False, "the insertion is not inside a loop over the edge array"
+        ia, ic = loop_item_path(a), loop_item_path(c)
+        ok_ft = ia is not None and ic is not None and ia[0] == ic[0] == lr["next_bb"] and ia[1][:-1] == ic[1][:-1] and (ia[1][-1], ic[1][-1]) == (0, 1)
+        chain = iterator_chain(ctx, L, lr["iter_expr"]) if lr.get("iter_expr") is not None else []
+        # leaving the loop early is allowed only on the error path (`?`)
+        for (x, s_) in lr["early_exits"]:
+            fr = [bb2 for bb2, t2 in L.calls() if callee_path(t2) == "std::ops::FromResidual::from_residual"]
+            if not fr or not L.all_paths_pass(s_, fr, L.exits()):
+                return False, "the loop over the edges can be left early without returning the error"
+        gs = [g for g in cond_guards(L, site_bb) if g[0] in lr["blocks"] and g[0] != lr.get("switch_bb")]
+        if gs:
+            return False, "the insertion is conditional inside the loop"
+        tb = [bb2 for bb2, t2 in L.calls() if callee_path(t2) == "std::ops::Try::branch" and bb2 in lr["blocks"]]
+        nxt = L.blocks[site_bb]["term"].get("target")
+        if nxt is None or not L.all_paths_pass(nxt, tb, [lr["next_bb"]]):
+            return False, "the loop goes on to the next edge without examining the result of the insertion (`?`): edges after a failing one are still added"
+    if not ok_ft:
+        return False, "endpoints are not the (from, to) pair of the iterated element: (%s, %s)" % (fmt_expr(a, L), fmt_expr(c, L))
+    names = [x[0] for x in chain]
+    sel = [x for x in names if x in SELECTIVE_ITER or x == "std::iter::Iterator::rev"]
+    if sel:
+        return False, "edge array is reordered/narrowed by %s" % sel
+    return True, ""
+
+
+def subst_args(e, args):
+    """replace ('arg', i) leaves of an expression by the caller's argument expressions"""
+    if not isinstance(e, E):
+        return e
+    if e.kind == "arg":
+        i = e[1]
+        return args[i - 1] if 1 <= i <= len(args) else e
+    out = []
+    for x in e:
+        if isinstance(x, E):
+            out.append(subst_args(x, args))
+        elif isinstance(x, tuple) and any(isinstance(z, E) for z in x):
+            out.append(tuple(subst_args(z, args) if isinstance(z, E) else z for z in x))
+        else:
+            out.append(x)
+    return E(tuple(out))
+
+
+def root_is_arg(e):
+    e = strip_refs(e)
+    while e.kind in ("field", "downcast", "deref", "ref", "cast"):
+        e = strip_refs(e[2] if e.kind == "ref" else e[1])
+    return e.kind == "arg"
+
+
+def has_arg_leaf(e):
+    return any(x.kind == "arg" for x in walk_expr(e))
+
+
+def edge_insertions(ctx, M):
+    """Every edge-mutating call reachable from builder method M, with its
+    (from, to, kind) expressions lifted through crate-local helpers into the
+    frame of M: a helper's parameters are replaced by the arguments of its
+    (single) call site on the way up.  Each result also records the bodies on
+    the way (`chain`) and the frame in which from/to stop being parameters."""
+    fb, m, fl = ctx.fb, ctx.model, ctx.model.flow
+    reach = m.reach(M.id)
+    out = []
+    for bid in sorted(reach):
+        bx = fb.bodies[bid]
+        for bb, t in bx.calls():
+            p = callee_path(t) or ""
+            if not (p in DAG_MUTATORS and p != "daggy::Dag::<N, E, Ix>::add_node" or
+                    p.startswith("daggy::petgraph::Graph::<N, E, Ty, Ix>::update_edge") or
+                    p.startswith("daggy::petgraph::Graph::<N, E, Ty, Ix>::add_edge") or
+                    p.startswith("daggy::petgraph::graph::Graph::<N, E, Ty, Ix>::")):
+                continue
+            ins = {"site": (bx, bb, t, p), "chain": [bx], "ok": True, "why": ""}
+            if p != UPDATE_EDGE or len(t["args"]) < 4:
+                ins["ok"] = False
+                ins["why"] = "mutates edges through %s" % p
+                out.append(ins)
+                continue
+            a = strip_refs(expr_operand(bx, t["args"][1]))
+            c = strip_refs(expr_operand(bx, t["args"][2]))
+            w = strip_refs(expr_operand(bx, t["args"][3]))
+            X = bx
+            ins["ends_frame"] = None
+            hops = 0
+            while X.id != M.id and not X.id.startswith(M.id + "::") and hops < 4:
+                hops += 1
+                if X.kind != "fn":
+                    # closure inside a helper: its captured values are not tracked; stay in this frame
+                    if ins["ends_frame"] is None:
+                        ins["ends_frame"] = X
+                    Xf = fb.bodies.get(X.root) if getattr(X, "root", None) else None
+                    if Xf is None or Xf.id == X.id:
+                        break
+                    # resolve captured upvars through the closure's creation site
+                    sites = fl.closure_sites().get(X.id, [])
+                    if len(sites) != 1:
+                        ins["ok"], ins["why"] = False, "closure %s created at %d sites" % (short(X.id), len(sites))
+                        break
+                    pb_, bb_, si_, st_ = sites[0]
+                    def up(e_):
+                        ui = upvar_index_(e_)
+                        if ui is not None:
+                            return strip_refs(expr_operand(pb_, st_["rv"]["ops"][ui]))
+                        return e_
+                    w = up(w)
+                    X = pb_
+                    ins["chain"].append(X)
+                    continue
+                callers = [(cb, cbb, ct) for (cb, cbb, ct) in fl.call_sites().get(X.id, []) if cb.id in reach and not fb.is_test_body(cb)]
+                if len(callers) != 1:
+                    ins["ok"], ins["why"] = False, "helper %s is called from %d sites within %s" % (short(X.id), len(callers), short(M.id))
+                    break
+                cb, cbb, ct = callers[0]
+                args = [strip_refs(expr_operand(cb, x)) for x in ct["args"]]
+                if ins["ends_frame"] is None and not (root_is_arg(a) and root_is_arg(c)):
+                    ins["ends_frame"] = X
+                if ins["ends_frame"] is None:
+                    a, c = subst_args(a, args), subst_args(c, args)
+                w = subst_args(w, args)
+                ins.setdefault("links", []).append((cb, cbb, ct))
+                X = cb
+                ins["chain"].append(X)
+            if ins["ends_frame"] is None:
+                ins["ends_frame"] = X
+            ins["a"], ins["c"], ins["w"], ins["frame"] = a, c, w, X
+            out.append(ins)
+    return out
+
+
+def upvar_index_(e):
+    from analysis import upvar_index
+    return upvar_index(e)
+
+
 def C16_rules(ctx, rule="E"):
     fb, m, fl = ctx.fb, ctx.model, ctx.model.flow
     builder_fns = [f for f in fb.fns.values() if (f.get("impl_self") or "").startswith("fn_graph_builder::FnGraphBuilder<") and
@@ -1844,49 +2025,44 @@ def C16_rules(ctx, rule="E"):
         b = fb.bodies.get(f["id"])
         if b is None or not f.get("public"):
             continue
-        muts = []
-        for bid in m.reach(b.id):
-            bx = fb.bodies[bid]
-            for bb, t in bx.calls():
-                p = callee_path(t) or ""
-                if p in DAG_MUTATORS or p.startswith("daggy::petgraph::Graph::<N, E, Ty, Ix>::update_edge") or \
-                        p.startswith("daggy::petgraph::Graph::<N, E, Ty, Ix>::add_edge") or \
-                        p.startswith("daggy::petgraph::graph::Graph::<N, E, Ty, Ix>::"):
-                    if bx.id == b.id:
-                        muts.append((bx, bb, t, p))
         where = m.where(b)
         takes_ids = [i for i in f["inputs"][1:] if "NodeIndex" in i["s"]]
         returns_res = "WouldCycle" in f["output"]["s"]
         if returns_res and len(takes_ids) == 2 and "[" not in f["inputs"][1]["s"]:
             # single-edge form (E1)
             n += 1
-            ok = len(muts) == 1 and muts[0][3] == UPDATE_EDGE
-            why = "calls %s" % [x[3] for x in muts]
+            inss = edge_insertions(ctx, b)
+            ok = len(inss) == 1 and inss[0]["ok"]
+            why = "edge mutations: %s" % [(x["site"][3].split("::")[-1], x["why"]) for x in inss]
             kind = None
             if ok:
-                bx, bb, t, p = muts[0]
-                a = strip_refs(expr_operand(bx, t["args"][1]))
-                c = strip_refs(expr_operand(bx, t["args"][2]))
-                w = strip_refs(expr_operand(bx, t["args"][3]))
-                ok = a.kind == "arg" and a[1] == 2 and c.kind == "arg" and c[1] == 3
+                ins = inss[0]
+                a, c, w = ins["a"], ins["c"], ins["w"]
+                ok = ins["frame"].id == b.id and a.kind == "arg" and a[1] == 2 and c.kind == "arg" and c[1] == 3
                 if not ok:
-                    why = "endpoints passed as (%s, %s), not (from, to)" % (fmt_expr(a, bx), fmt_expr(c, bx))
+                    why = "endpoints passed as (%s, %s), not (from, to)" % (fmt_expr(a, ins["frame"]), fmt_expr(c, ins["frame"]))
                 if w.kind == "agg" and w[2] == "edge::Edge":
                     kind = w[3]
                 else:
                     ok = False
                     why = "edge kind is not a constant"
-                # result returned unchanged
+                # result returned unchanged through every body on the way
                 rs = fl.sources_local(b, 0, ()) | fl.sources_local(b, 0, ("E",))
-                ret_ok = any(s.kind == "alloc" and s[4] == UPDATE_EDGE for s in rs) and all(s.kind == "alloc" and s[4] == UPDATE_EDGE for s in rs)
-                # the return place is assigned only by the update_edge call (no early Ok/Err of its own)
-                rdefs = get_defs(b).of(0)
-                only_call = len(rdefs) == 1 and rdefs[0][0] == "call" and callee_path(rdefs[0][3]) == UPDATE_EDGE
-                other_calls = [callee_path(t2) for _, t2 in b.calls() if callee_path(t2) != UPDATE_EDGE]
-                if ok and not (ret_ok and only_call and not other_calls and not b.back_edges() and
-                               not any(blk["term"]["k"] == "switch" for blk in b.blocks)):
+                ret_ok = bool(rs) and all(s.kind == "alloc" and s[4] == UPDATE_EDGE for s in rs)
+                pure = True
+                extra = []
+                for X in ins["chain"]:
+                    rdefs = get_defs(X).of(0)
+                    links = [callee_path(t2) for _, t2 in X.calls()]
+                    allowed = {UPDATE_EDGE} | {y.id for y in ins["chain"]}
+                    others = [l for l in links if l not in allowed]
+                    if len(rdefs) != 1 or rdefs[0][0] != "call" or others or X.back_edges() or \
+                            any(blk["term"]["k"] == "switch" for blk in X.blocks):
+                        pure = False
+                        extra += others
+                if ok and not (ret_ok and pure):
                     ok = False
-                    why = "the method does more than return update_edge's result unchanged (extra checks / early returns / other calls %s)" % other_calls
+                    why = "the method does more than return update_edge's result unchanged (extra checks / early returns / other calls %s)" % extra
             singles[f["id"]] = kind
             ctx.check(ok, rule + "1", "single|%s" % f["name"], where,
                       "%s is exactly daggy::Dag::update_edge(from, to, Edge::%s) with its result returned unchanged" % (f["name"], kind),
@@ -1907,44 +2083,33 @@ def C16_rules(ctx, rule="E"):
         if "WouldCycle" in f["output"]["s"] and len(f["inputs"]) >= 2 and f["inputs"][1]["s"].startswith("[("):
             n += 1
             where = m.where(b)
-            called = set()
-            consumers = []
-            for bid in m.reach(b.id):
-                bx = fb.bodies[bid]
-                for bb, t in bx.calls():
-                    p = callee_path(t) or ""
-                    if p in singles:
-                        called.add(p)
-                    if p in ("std::iter::Iterator::try_for_each", "std::iter::Iterator::for_each", "std::iter::Iterator::try_fold") and bx.id == b.id:
-                        consumers.append((bx, bb, t, p))
             want_kind = "Logic" if "logic" in f["name"] else ("Contains" if "contains" in f["name"] else None)
-            ok = len(called) == 1 and singles.get(list(called)[0]) == want_kind
-            why = "calls %s" % sorted(short(c) for c in called)
+            inss = edge_insertions(ctx, b)
+            ok = len(inss) == 1 and inss[0]["ok"]
+            why = "edge mutations: %s" % [(x["site"][3].split("::")[-1], x["why"]) for x in inss]
             if ok:
-                if len(consumers) != 1 or consumers[0][3] != "std::iter::Iterator::try_for_each":
+                ins = inss[0]
+                w = ins["w"]
+                got = w[3] if w.kind == "agg" and w[2] == "edge::Edge" else None
+                if got != want_kind:
                     ok = False
-                    why = "does not use a short-circuiting try_for_each over the edges (%s)" % [c[3] for c in consumers]
-                else:
-                    bx, bb, t, p = consumers[0]
-                    chain = iterator_chain(ctx, bx, expr_operand(bx, t["args"][0]))
-                    names = [c[0] for c in chain]
-                    sel = [x for x in names if x in SELECTIVE_ITER or x == "std::iter::Iterator::rev"]
-                    if sel:
-                        ok = False
-                        why = "edge array is reordered/narrowed by %s" % sel
-                    # `?` on the result: the error is returned (Err edge leaves the function without further mutation)
-                    dest = t["dest"]["l"]
-                    rs = fl.sources_local(b, 0, ("E",))
-                    if not any(s.kind == "alloc" and s[4] == UPDATE_EDGE for s in rs):
-                        ok = False
-                        why = "the first error is not propagated to the caller"
+                    why = "inserts edges of kind %s (`%s`)" % (got, fmt_expr(w, ins["frame"]))
+            if ok:
+                okl, whyl = per_element_insertion(ctx, b, ins)
+                if not okl:
+                    ok, why = False, whyl
+            if ok:
+                rs = fl.sources_local(b, 0, ("E",))
+                if not any(s.kind == "alloc" and s[4] == UPDATE_EDGE for s in rs):
+                    ok = False
+                    why = "the first error is not propagated to the caller"
             ctx.check(ok, rule + "2", "batch|%s" % f["name"], where,
-                      "%s calls the matching single form once per element in array order and returns the first error" % f["name"],
+                      "%s inserts one Edge::%s per element in array order (same insertion as the single form) and returns the first error" % (f["name"], want_kind),
                       "%s: %s" % (f["name"], why))
     # E3: no other builder method mutates edges
     for f in sorted(builder_fns, key=lambda x: x["name"]):
         b = fb.bodies.get(f["id"])
-        if b is None or f["id"] in singles or f["name"] == "build":
+        if b is None or f["id"] in singles or f["name"] == "build" or not f.get("public"):
             continue
         if "WouldCycle" in f["output"]["s"]:
             continue
@@ -1953,7 +2118,8 @@ def C16_rules(ctx, rule="E"):
             bx = fb.bodies[bid]
             for bb, t in bx.calls():
                 p = callee_path(t) or ""
-                if p in DAG_MUTATORS and p != "daggy::Dag::<N, E, Ix>::add_node":
+                if p in DAG_MUTATORS and p != "daggy::Dag::<N, E, Ix>::add_node" and \
+                        "daggy::Dag<F," in ((t["args"][0].get("pl") or {}).get("ty", "") if t["args"] and isinstance(t["args"][0], dict) else ""):
                     bad.append(p)
         n += 1
         ctx.check(not bad, rule + "3", "no-edge-mutation|%s" % f["name"], m.where(b),
